@@ -53,7 +53,7 @@ PROPERTIES = {
                  "non-trivial = all; distinct = distinct input terms"),
         "modelled_not_verified": [
             "allocation is modelled as bytes requested from the allocator by Read (MakeSlice/New/make), Go struct padding ignored; the runtime's out-of-memory behaviour itself is observed, not modelled",
-            "recursion depth = nesting depth of the type/value (finite by construction of goty/goval; a Go value cannot be cyclic through the kinds Write accepts except via pointers/interfaces to itself, which is not representable here and not generated)",
+            "the Reader's element budget is per Reader lifetime (Reset clears it; Seek does not): modelled for one Reader over one buffer read front to back", "recursion depth = nesting depth of the type/value (finite by construction of goty/goval; a Go value cannot be cyclic through the kinds Write accepts except via pointers/interfaces to itself, which is not representable here and not generated)",
             "ReadBytes(n)/Skip(n) with a negative caller-supplied n panic (modelled, compared, not counted as a violation: n is not wire data)",
         ],
     },
@@ -62,7 +62,7 @@ PROPERTIES = {
 META = {
     "C12": {
         "text": ("Generic half (primitive Writer/Reader): kernel-checked theorems about the Gallina model of Write/Read/writeReflect/readReflect: "
-                 "for every supported type (basic, slice, array, struct, nested arbitrarily) and every value within the uint32 length range, "
+                 "for every supported type (basic, slice, array, struct, nested arbitrarily) and every value within the uint32 length range whose slices of zero-wire-size elements are empty, on a fresh Reader and on a Reader in any state whose element budget covers the value, "
                  "Read ty (Write v ++ rest) = (v modulo nil-slice->empty and unexported-field->zero, rest), by induction on the type; the same "
                  "for WriteFrom/ReadInto lists and for each primitive (fixed width, bool, float bits, varint/uvarint exactly as encoding/binary, "
                  "short strings, 1/2/4-byte length prefixes); each excluded value class is a theorem with a witness. Tied to the Go code by a "
@@ -72,13 +72,13 @@ META = {
         "technique": "Coq proof (induction on the type universe) over a hand-written model + differential correspondence check against the Go code",
     },
     "C13": {
-        "text": ("Generic half: the same model (of the code after the nil-pointer and slice-length fix commits) with explicit crash outcomes and a "
-                 "cost meter: the writer's outcome for EVERY Go value (unsupported kinds, named types, nil pointers at any depth, nil interfaces) is Ok "
-                 "or Err; the reader's outcome for every type and EVERY byte string is Ok or Err, the loop fuel |input|+1 is never exhausted, the "
-                 "result is a suffix of the input; Read with a nil/non-pointer target is an error; allocation + iterations <= kA(type)*|input| + "
-                 "kK(type) for every type without a slice of zero-wire-size elements, hostile length prefixes are rejected before allocating; "
-                 "refuted without that guard (nested slices of zero-size elements: quadratic, witness); a failed Read leaves its variable "
-                 "unchanged; ReadInto assigns exactly the variables before the failing one."),
+        "text": ("Generic half: the same model (of the code after the nil-pointer, slice-length and element-budget fix commits) with explicit crash "
+                 "outcomes, the Reader's element counter threaded through Read, and a cost meter: the writer's outcome for EVERY Go value (unsupported "
+                 "kinds, named types, nil pointers at any depth, nil interfaces) is Ok or Err; the reader's outcome for every type, EVERY byte string "
+                 "and every Reader state is Ok or Err, the loop fuel |input|+1 is never exhausted, the result is a suffix of the input; Read with a "
+                 "nil/non-pointer target is an error; for EVERY type and input, bytes allocated + iterations <= 2*kA(type)*|input| + kK(type) "
+                 "(potential = remaining bytes + remaining element budget), hostile length prefixes are rejected before allocating; a failed Read "
+                 "leaves its variable unchanged; ReadInto assigns exactly the variables before the failing one."),
         "design_ref": "DESIGN.md §4 C13, Appendix C",
         "note": "Hostile inputs run in a child process under RLIMIT_AS; child death / timeout / disproportionate allocation are implementation-side monitor hits naming the input.",
         "technique": "Coq proof (induction; explicit fuel with exhaustion excluded by theorem; cost meter) + differential check + resource monitors in a sandboxed child process",
